@@ -52,6 +52,7 @@ import Manticore.Lemmas.SmbGuarded
 import Manticore.Lemmas.SmbCodecsHonest
 import Manticore.Lemmas.SmbAlloc
 import Manticore.Lemmas.SmbCodecsAlloc
+import Manticore.Lemmas.C07AllocNet
 namespace Manticore.C07
 open Manticore Manticore.SmbIR Manticore.Gen.SmbCommands
 
@@ -415,6 +416,59 @@ theorem nbns_first_level_decode_total (e : Bytes) : Manticore.C10.firstLevelDeco
 /-- `NBTTransport.Receive` never panics, whatever bytes the peer sends and wherever the stream ends -/
 theorem nbt_receive_total (s : Manticore.C11.Stream) : Manticore.C11.receive s ≠ .panic :=
   Manticore.C11.receive_total s
+
+/-! ### allocation, network decoders (Model/NetAlloc.lean, Lemmas/C07AllocNet.lean) -/
+
+/-- **allocation, `llmnr.DecodeMessage`**: the decoded message (`Message.size`: 48 for the header,
+    per question its name + 16, per record its name + 32 + its RDATA) is at most
+    `48 + len(data) + count·(len(data)² + 32)` with `5·count + 12 ≤ len(data)` — polynomial (cubic at
+    worst) in the input, not linear: name compression lets every record point at the same long
+    name and each decoded name is a fresh string (`llmnr_name_alloc_bound`). -/
+theorem llmnr_decode_message_alloc_bound (data : Bytes) (m : Manticore.C09.Message)
+    (h : Manticore.C09.decodeMessage data = .ok m) :
+    m.size ≤ 48 + data.length + m.count * (data.length * data.length + 32) ∧ 5 * m.count + 12 ≤ data.length :=
+  Manticore.C09.decodeMessage_size data m h
+/-- `llmnr.DecodeResourceRecord`: `rr.RData = make([]byte, rr.RDLength)` is reached, for every input
+    and offset, only when that many bytes follow the ten fixed ones; a decoded record's RDATA is
+    exactly that allocation -/
+theorem llmnr_rdata_alloc_bound (data : Bytes) (off : Nat) :
+    (Manticore.C09.rdataAllocOf data off + off + 10 ≤ data.length ∨ Manticore.C09.rdataAllocOf data off = 0) ∧
+    ∀ r off', Manticore.C09.decodeRR data off = .ok (r, off') →
+      ∃ nx, off < nx ∧ r.rdata.length = Manticore.C09.rdataAllocOf data nx :=
+  ⟨Manticore.C09.rdataAllocOf_le data off, fun r off' h => (Manticore.C09.decodeRR_size data off r off' h).2.2.2⟩
+/-- the clause is not vacuous: with the `make` in front of the "truncated rdata" check an 11-byte
+    input costs 65535 bytes -/
+example : Manticore.C09.rdataAllocEager [0, 0, 1, 0, 1, 0, 0, 0, 0, 0xff, 0xff] 1 = 65535 := by decide
+example : Manticore.C09.rdataAllocOf [0, 0, 1, 0, 1, 0, 0, 0, 0, 0xff, 0xff] 1 = 0 := by decide
+
+/-- **allocation, `NBTNSPacket.Unmarshal`**: the decoded packet (header 48, per question name +
+    scope + 16, per record name + scope + 32 + RDATA) is at most eight times the input -/
+theorem nbns_unmarshal_alloc_bound (data : Bytes) (n : Nat) (p : Manticore.C10.Packet)
+    (h : Manticore.C10.unmarshal data = .ok (n, p)) : p.size ≤ 8 * data.length :=
+  Manticore.C10.unmarshal_size data n p h
+/-- the `rr.RData = make([]byte, rr.RDLength)` of `unmarshalRRs` is reached only when that many bytes
+    follow; a decoded record's RDATA is exactly that allocation -/
+theorem nbns_rdata_alloc_bound (data : Bytes) (off : Nat) :
+    (Manticore.C10.rdataAllocOf data off + off + 10 ≤ data.length ∨ Manticore.C10.rdataAllocOf data off = 0) ∧
+    ∀ r off', Manticore.C10.unmarshalRR data off = .ok (r, off') →
+      ∃ nx, off < nx ∧ r.rdata.length = Manticore.C10.rdataAllocOf data nx :=
+  ⟨Manticore.C10.rdataAllocOf_le data off, fun r off' h => (Manticore.C10.unmarshalRR_size data off r off' h).2.2.2⟩
+/-- a decoded NetBIOS name: name and scope together are at least 16 bytes shorter than the encoded text -/
+theorem nbns_first_level_decode_alloc_bound (enc : Bytes) (n : Manticore.C10.NBName)
+    (h : Manticore.C10.firstLevelDecode enc = .ok n) : n.size + 16 ≤ enc.length :=
+  Manticore.C10.firstLevelDecode_size enc n h
+
+/-- **allocation, `NBTTransport.Receive`**: the frame body is allocated from the 17-bit LENGTH field
+    of the four header bytes BEFORE it is read (`buffer := make([]byte, length)`), so what `Receive`
+    allocates is bounded by the field's range — 4 + 131071 bytes — and not by what the peer sends:
+    "in proportion to the input" holds here only as this fixed cap (four bytes `00 01 ff ff` cost
+    131075).  A message that is returned is exactly that buffer and did arrive. -/
+theorem nbt_receive_alloc_bound (s : Manticore.C11.Stream) :
+    Manticore.C11.receiveAllocOf s ≤ 131075 ∧
+    ∀ m s', Manticore.C11.receive s = .ok (m, s') → m.length + 4 = Manticore.C11.receiveAllocOf s ∧ m.length + 4 ≤ s.length :=
+  ⟨Manticore.C11.receiveAllocOf_le s, fun m s' h => Manticore.C11.receive_alloc s m s' h⟩
+/-- the cap is reached by four bytes -/
+example : Manticore.C11.receiveAllocOf [0, 1, 0xff, 0xff] = 131075 := by decide
 
 /-! ### PKCS#7, GPP cpasswords, UTF-16 text (models of C12) -/
 
